@@ -36,22 +36,36 @@ fn any_lang(und: bool) -> Language {
     }
 }
 
-/// arbitrary (language, script?, region?) vs the reference cascade
+/// as `cascade`, for one *concrete* language (binary searches keyed by it are then decided by
+/// constant propagation, so the 7143-row table costs nothing): a known language with entries in the
+/// language-region / language-script tables, and an unknown representative
+fn cascade_for(lang_text: &[u8], known: bool) {
+    let l = Language::from_bytes(lang_text).unwrap();
+    cascade_with(l, known)
+}
 fn cascade(und: bool) {
-    let l = any_lang(und);
+    cascade_with(any_lang(und), true)
+}
+
+/// arbitrary (language, script?, region?) vs the reference cascade
+fn cascade_with(l: Language, known: bool) {
     let (s, _) = sym::opt_script();
     let (r, _) = sym::opt_region();
     let q = lk::rt_of(&(l, s, r));
     let got = maximize(l, s, r);
     let want = lk::reference_maximize(q);
-    cover!(got.is_some() && s.is_some());
-    cover!(got.is_some() && r.is_some() && s.is_none());
-    cover!(got.is_none() && !(s.is_some() && r.is_some()));
+    cover!(!known || (got.is_some() && s.is_some()));
+    cover!(!known || (got.is_some() && r.is_some() && s.is_none()));
+    cover!(known || (got.is_none() && s.is_some() && r.is_none()));
     match want {
         Want::Found(v) => assert!(got_rt(got) == Some(v), "result is the value of the most specific matching entry with every given subtag kept"),
         Want::NotFound => assert!(got.is_none(), "unchanged exactly when all three are present or no entry matches"),
         Want::Either => {
-            // the library reports 'unchanged'; a UTS #35 fallback value would also be accepted
+            // the library may report 'unchanged' or apply a UTS #35 fallback; a fallback value must
+            // still keep every subtag that was given
+            if let Some(v) = got_rt(got) {
+                assert!(lk::keeps_given(&q, &v), "a fallback answer keeps every given subtag and fills all three");
+            }
         }
     }
 }
@@ -105,6 +119,9 @@ proofs! {
 
 // ---- arbitrary triples vs the reference cascade ----
 [] fn c06_cascade_und() { cascade(true) }
+[] fn c06_cascade_zh() { cascade_for(b"zh", true) }
+[] fn c06_cascade_sr() { cascade_for(b"sr", true) }
+[] fn c06_cascade_unknown_qaa() { cascade_for(b"qaa", false) }
 [] fn c06_cascade_lang() { cascade(false) }
 
 // ---- the LanguageIdentifier wrapper ----
